@@ -45,6 +45,16 @@ func vfC24RandOpts(rng interface{ Intn(int) int }, base ExportOptions) ExportOpt
 		o.Timeouts = &TimeoutConfig{ReadTimeout: time.Second, WriteTimeout: time.Second, LookupTimeout: time.Second, ReaddirTimeout: time.Second, CreateTimeout: time.Second, RemoveTimeout: time.Second, RenameTimeout: time.Second, HandleTimeout: time.Second, DefaultTimeout: 2 * time.Second}
 	}
 	o.Log = nil
+	// fields of the policy half, with values a validation might balk at (the probes stay servable)
+	o.MaxFileSize = []int64{0, 0, -1, 1 << 30, 1 << 40}[rng.Intn(5)]
+	switch rng.Intn(4) {
+	case 0:
+		o.AllowedIPs = []string{"127.0.0.1", "not-an-address", "10.0.0.0/33"}
+	case 1:
+		o.AllowedIPs = []string{"127.0.0.1"}
+	default:
+		o.AllowedIPs = nil
+	}
 	return o
 }
 
@@ -166,6 +176,9 @@ func vfC24Seq(rec *evid.Rec, s int) {
 				if lr, lerr := c.lookup(root, "f"); lerr != nil || lr == nil || lr.Status != 0 {
 					fail("C24/editing-the-reported-options-breaks-service", fmt.Sprintf("LOOKUP after editing the struct returned by GetExportOptions, before any update: %v %d", lerr, vfSt(lr)))
 				}
+				// the allow-list edit was only there to see whether the reported slice is shared; what
+				// is submitted keeps the probe client admitted
+				o.AllowedIPs = append([]string(nil), before.AllowedIPs...)
 				if kind == "UpdateExportOptions(edited-in-place)+SquashChange" {
 					o.Squash = "all"
 					rejected = true
@@ -269,7 +282,21 @@ func vfC24Seq(rec *evid.Rec, s int) {
 				fail("C24/rejected-update-changed-configuration/"+kind, fmt.Sprintf("the update returned %q yet changed: %v", cerr, diff))
 			}
 		} else if cerr != nil {
-			fail("C24/valid-update-rejected/"+kind, cerr.Error())
+			// the server may refuse values it does not like - but then as a whole
+			rec.Add("updates_refused_by_the_server", 1)
+			afterPolicy := fmt.Sprintf("ro=%v secure=%v squash=%q maxfile=%d ips=%v rl=%v", after.ReadOnly, after.Secure, after.Squash, after.MaxFileSize, after.AllowedIPs, after.EnableRateLimiting)
+			if av := vfTuningView(after); !reflect.DeepEqual(beforeView, av) || beforePolicy != afterPolicy {
+				var diff []string
+				for k := range beforeView {
+					if !reflect.DeepEqual(beforeView[k], av[k]) {
+						diff = append(diff, fmt.Sprintf("%s: %v -> %v", k, beforeView[k], av[k]))
+					}
+				}
+				if beforePolicy != afterPolicy {
+					diff = append(diff, beforePolicy+" -> "+afterPolicy)
+				}
+				fail("C24/rejected-update-changed-configuration/"+kind+"/refused-by-the-server", fmt.Sprintf("%s returned %q yet changed: %v", desc, cerr, diff))
+			}
 		} else if want != nil {
 			got := vfTuningView(after)
 			for k, w := range want {
